@@ -2,7 +2,9 @@
 package gen
 
 import (
+	"bytes"
 	"math"
+	"unicode"
 
 	"pgregory.net/rapid"
 
@@ -173,12 +175,50 @@ func Str(t *rapid.T, o TreeOpts, label string) []byte {
 		// strings that look like other SNBT tokens
 		return []byte(rapid.SampledFrom([]string{"", "123", "1b", "1.5", "-", "+1", "1e5", "true", "false", "0x10", "1.", ".5", "1L", "-0.0", "Infinity", "NaN", "1f", "2d", "3s", "00", "-1"}).Draw(t, label))
 	}
+	if c >= 100 && c < 106 {
+		// lengths swept over buffer-size boundaries (the content is a cheap pattern)
+		n := rapid.IntRange(9, 300).Draw(t, label+"_sweeplen")
+		if rapid.Bool().Draw(t, label+"_pow2") {
+			n = (1 << uint(rapid.IntRange(4, 10).Draw(t, label+"_exp"))) + rapid.IntRange(-3, 3).Draw(t, label+"_off")
+		}
+		if o.NoBigStr && n > 131 {
+			n = 31 + n%101 // small documents wanted: keep to 31..131
+		}
+		unit := rapid.SampledFrom(alpha).Draw(t, label+"_unit")
+		if len(unit) != 1 {
+			unit = "k"
+		}
+		out := bytes.Repeat([]byte(unit), n)
+		for i := 7; i < len(out); i += 11 {
+			out[i] = 'a' + byte(i%26)
+		}
+		return out
+	}
+	if c >= 110 && c < 118 {
+		// arbitrary code points (all planes): whatever rule decides quoting/escaping must look at whole runes
+		letters := rapid.RuneFrom(nil, unicode.Han, unicode.Latin, unicode.Cyrillic)
+		rg := rapid.OneOf(rapid.Rune(), letters, rapid.Int32Range(0xa1, 0x17f))
+		if o.TextKeys {
+			rg = letters // text mode keeps to letters (control characters have no agreed escape)
+		}
+		rs := rapid.SliceOfN(rg, 1, 6).Draw(t, label+"_runes")
+		return []byte(string(rs))
+	}
 	n := rapid.IntRange(0, 8).Draw(t, label+"_n")
 	var out []byte
 	for i := 0; i < n; i++ {
 		out = append(out, rapid.SampledFrom(alpha).Draw(t, label)...)
 	}
 	return out
+}
+
+// arrayLen: mostly short; sometimes around the block sizes an implementation may read in (the
+// elements of long arrays are a cheap pattern derived from one drawn value).
+func arrayLen(t *rapid.T, label string) (n int, long bool) {
+	if rapid.IntRange(0, 24).Draw(t, label+"_longcls") == 13 {
+		return rapid.SampledFrom([]int{63, 64, 65, 127, 128, 129, 130, 255, 256, 257, 258, 300, 511, 513, 1000, 1025, 4097}).Draw(t, label+"_long"), true
+	}
+	return rapid.IntRange(0, 12).Draw(t, label), false
 }
 
 type treeGen struct {
@@ -233,18 +273,51 @@ func (g *treeGen) value(t *rapid.T, tt byte, depth int) *rn.Tag {
 	case rn.String:
 		n.S = Str(t, g.o, "str")
 	case rn.ByteArray:
-		n.B = rapid.SliceOfN(rapid.Byte(), 0, 20).Draw(t, "bytes")
+		if k, long := arrayLen(t, "nbytes"); long && !g.o.NoBigStr {
+			x := rapid.Uint64().Draw(t, "bytes_seed")
+			n.B = make([]byte, k*9)
+			for i := range n.B {
+				x = x*6364136223846793005 + 1442695040888963407
+				n.B[i] = byte(x >> 56)
+			}
+		} else {
+			n.B = rapid.SliceOfN(rapid.Byte(), 0, 20).Draw(t, "bytes")
+		}
 	case rn.IntArray:
-		k := rapid.IntRange(0, 12).Draw(t, "nints")
+		k, long := arrayLen(t, "nints")
+		if long && g.o.NoBigStr {
+			k, long = 3, false
+		}
 		n.Ints = make([]int32, k)
+		x := uint64(0)
+		if long {
+			x = rapid.Uint64().Draw(t, "ints_seed")
+		}
 		for i := range n.Ints {
-			n.Ints[i] = int32(boundaryInt(t, 32, "ia"))
+			if long {
+				x = x*6364136223846793005 + 1442695040888963407
+				n.Ints[i] = int32(x >> 32)
+			} else {
+				n.Ints[i] = int32(boundaryInt(t, 32, "ia"))
+			}
 		}
 	case rn.LongArray:
-		k := rapid.IntRange(0, 12).Draw(t, "nlongs")
+		k, long := arrayLen(t, "nlongs")
+		if long && g.o.NoBigStr {
+			k, long = 3, false
+		}
 		n.Longs = make([]int64, k)
+		x := uint64(0)
+		if long {
+			x = rapid.Uint64().Draw(t, "longs_seed")
+		}
 		for i := range n.Longs {
-			n.Longs[i] = boundaryInt(t, 64, "la")
+			if long {
+				x = x*6364136223846793005 + 1442695040888963407
+				n.Longs[i] = int64(x)
+			} else {
+				n.Longs[i] = boundaryInt(t, 64, "la")
+			}
 		}
 	case rn.List:
 		var et byte
